@@ -61,7 +61,7 @@ PROPS = {
                lambda c: sched.sched_sibling(c, ('feedback',)),
                lambda c: sched.sched_handover(c, (sched.FB,)),
                lambda c: sched.sched_pair(c, (sched.FB,)),
-               lambda c: sched.key_rebind(c, (sched.FB,)), interp.fb_epoch,
+               lambda c: sched.key_rebind(c, (sched.FB,)), lambda c: sched.empty_guard(c, (sched.FB,)), interp.fb_epoch,
                lambda c: sched.sched_span(c, (sched.FB,)), sched.step_bound_fb,
                integrator.wa_forward,
                integrator.buf_rules, integrator.last_row, integrator.kernel_via],
@@ -90,7 +90,7 @@ PROPS = {
                lambda c: sched.sched_handover(c, (sched.FF,)),
                lambda c: sched.sched_span(c, (sched.FF,)),
                lambda c: sched.sched_pair(c, (sched.FF,)),
-               lambda c: sched.key_rebind(c, (sched.FF,)),
+               lambda c: sched.key_rebind(c, (sched.FF,)), lambda c: sched.empty_guard(c, (sched.FF,)),
                sched.step_bound],
         decided=['the averaged readings are divided by the positive step handed over, never by a batch-dependent quantity that can vanish',
                  'documented defaults run', 'termination and strictly increasing output index '
@@ -180,7 +180,7 @@ PROPS = {
         undecided=['exactness of scipy.linalg.expm', 'symmetry/PSD of the computed product in '
                    'floating point', 'composition over partitions (numerical)']),
     'C19': dict(
-        rules=[names.len_dispatch, purity.pur_rules, purity.rng_src, purity.rng_fwd, purity.sch_rules, dtype.dtype_inherit,
+        rules=[names.len_dispatch, purity.pur_rules, purity.rng_src, purity.rng_seed, purity.rng_fwd, purity.sch_rules, dtype.dtype_inherit,
                forms.form_agree,
                forms.form_agree_tables, forms.util_prod, layout.est_rules, sensor.sm_accum,
                diff.wrap_rules, smmodel.sm_model, smmodel.sm_params, layout.result_form],
@@ -210,7 +210,7 @@ PROPS = {
                    'first-order recovery of a perturbation (numerical)']),
     'C14': dict(
         rules=[sensor.sm_names, sensor.sm_count, sensor.sm_accum, sensor.sm_sign, sensor.sm_apply,
-               sensor.sm_gate, sensor.sm_table, purity.rng_src, purity.rng_fwd, layout.corr_pair,
+               sensor.sm_gate, sensor.sm_table, purity.rng_src, purity.rng_seed, purity.rng_fwd, layout.corr_pair,
                smmodel.sm_model, smmodel.sm_params, smmodel.sm_draw, sensor.sm_first_dt,
                sensor.sm_const,
                layout.layout_state,
